@@ -31,7 +31,7 @@ def gen_cases(tier, seed):
     out = []
     for i in range(n):
         s = env.seed_for(seed, ID, tier, i)
-        r = random.Random(s)
+        r = random.Random(env.seed_for(s, "descriptor"))  # independent of the stream run_case derives from the same seed
         out.append({"seed": s, "kind": r.choice(KINDS), "depth": r.choice([0, 0, 0, 1, 1, 2, 3, 4, 5, 8]), "helper": r.random() < 0.3,
                     "bare_thread": r.random() < 0.75, "W": r.choice([1, 4]), "filler": r.randint(0, 5),
                     "copy_reg": r.random() < 0.35})  # run with registry.copy(): the copy must attribute failures to the same lines
